@@ -159,7 +159,10 @@ def dual_quadric_stream(ctx, n, prefix="C07"):
             D = C.dual
             h = C.tangent(on)
             TD, TC = T * D, T * C
-            return (bool(D.is_dual), bool(TD.is_dual), bool(D.contains(h)), bool(TD.contains(T * h)), bool(TD == TC.dual), bool(TC.is_tangent(T * h)),
+            # "t * dual = dual of the image" is judged projectively with a relative tolerance (the library's == applies an absolute
+            # tolerance to the entries, which misjudges matrices with entries of very different magnitude)
+            same = proj_close_nn(np.asarray(TD.array, dtype=complex), np.asarray(TC.dual.array, dtype=complex), 1e-7)
+            return (bool(D.is_dual), bool(TD.is_dual), bool(D.contains(h)), bool(TD.contains(T * h)), bool(same), bool(TC.is_tangent(T * h)),
                     type(TD).__name__ == type(D).__name__)
         r = call_impl(run)
         if r[0] != "ok" or r[1] != (True, True, True, True, True, True, True):
